@@ -116,8 +116,14 @@ class MutexOption(click.Option):
 def spdx_identifier(text: str) -> Expression:
     """Factory for creating SPDX expressions."""
     try:
-        return _LICENSING.parse(text)
+        expression = _LICENSING.parse(text)
     except (ExpressionError, ParseError) as error:
         raise click.UsageError(
             _("'{}' is not a valid SPDX expression.").format(text)
         ) from error
+    # An empty or blank text parses to nothing.
+    if expression is None:
+        raise click.UsageError(
+            _("'{}' is not a valid SPDX expression.").format(text)
+        )
+    return expression
